@@ -185,3 +185,31 @@ def run(ctx, rep):
             outs[fn] = w_
         vals = list(outs.values())
         rep.check(len(impls) == 2 and all(v == vals[0] for v in vals) and vals[0] >= {'pos', 'waiting_mac'}, 'R-C13-6', 'slot %s: implementations write the same out-parameters' % slot[2:], 'cmdline/io.c', str({k: sorted(v) for k, v in outs.items()}), function=slot[2:], construct='slot contract')
+
+    # mono honours the skip argument of io_write_preset, the threaded ring the one of io_write_next: both must carry the same decision
+    rep.rule('R-C13-7', 'io_write_preset (honoured by the single-thread engine) and io_write_next (honoured by the ring) receive the same position and the same skip decision, unchanged in between', 1)
+    import re as _re
+    n = 0
+    for f in P.defined():
+        pre = [c for c in f.calls() if c.indirect and 'io_write_preset' in f.expr(c.target)]
+        nxt = [c for c in f.calls() if c.indirect and 'io_write_next' in f.expr(c.target)]
+        if not pre and not nxt:
+            continue
+        n += 1
+        rep.analysed(f)
+        ok = len(pre) == 1 and len(nxt) == 1
+        det = '%d preset / %d next calls' % (len(pre), len(nxt))
+        if ok:
+            a = [f.expr(o) for o in pre[0].ops[1:3]]; b = [f.expr(o) for o in nxt[0].ops[1:3]]
+            ok = a == b
+            det = 'preset(%s) / next(%s)' % (', '.join(a), ', '.join(b))
+            if ok:
+                names = set(_re.findall(r'[A-Za-z_][A-Za-z_0-9]*', ' '.join(a)))
+                between = f.reach([pre[0]], stop={nxt[0].id})
+                mods = [i for i in f.all_insts() if i.op == 'store' and i.id in between and f.expr(i.ops[1]).lstrip('&') in names and nxt[0].id in f.reach([i], stop={pre[0].id})]
+                ok = not mods
+                if mods:
+                    det += '; %s is modified between the two calls at line %s' % (f.expr(mods[0].ops[1]).lstrip('&'), mods[0].line)
+        rep.check(ok, 'R-C13-7', '%s: io_write_preset and io_write_next agree' % base(f.name), (pre or nxt)[0].loc(), det, function=base(f.name), construct='preset/next agreement')
+    if n == 0:
+        raise AnalysisBroken('no caller of io_write_preset / io_write_next found')
